@@ -29,6 +29,12 @@ def sizeSet (t : String) : Option (List Nat) :=
   | "p565" => some [5, 6, 5] | "p332" => some [3, 3, 2] | "p4444" => some [4, 4, 4, 4] | "p5551" => some [5, 5, 5, 1]
   | "g4" => some [4] | "c4444" => some [4, 4, 4, 4] | _ => none
 
+/-- packed pixels with spare bits: (bits per colour, bits of the carrier) -/
+def spareSet (t : String) : Option (List Nat × Nat) :=
+  match t with
+  | "s432" => some ([4, 3, 2], 16) | "s565w" => some ([5, 6, 5], 32) | "s222" => some ([2, 2, 2], 8)
+  | "s5551w" => some ([5, 5, 5, 1], 32) | "sg3" => some ([3], 8) | _ => none
+
 def chanBytes (t : String) : Option Nat :=
   match t with | "u8" => some 1 | "u16" => some 2 | "f32" => some 4 | _ => none
 
@@ -61,12 +67,14 @@ def modelAcc (t m : String) (l : Layout) (v : List Int) : String :=
   let idx := if m = "K" ∨ m = "B" then "-" else showComma v
   let off : List Int :=
     if m = "I" then (List.range n).map (fun (k : Nat) => Int.ofNat (2 * k + 1))
-    else if m = "P" then (List.range n).map (fun (k : Nat) => Int.ofNat k)
+    else if m = "P" ∨ m = "Q" then (List.range n).map (fun (k : Nat) => Int.ofNat k)
     else match chanBytes t, sizeSet t with
       | some cb, _ => (List.range n).map (fun (k : Nat) => Int.ofNat (k * cb))
       | none, some sz => (prefixSums (physSizes l sz)).map (fun (x : Nat) => Int.ofNat x)
       | none, none => []
-  s!"at={showComma v} sem={showComma sem} col={showComma col} idx={idx} off={showComma off}"
+  let dyn := if m = "V" ∨ m = "R" ∨ m = "P" ∨ m = "Q" then showComma v else "-"
+  let wr := if m = "V" ∨ m = "R" ∨ m = "P" then showComma (v.map (· + 1)) else "-"
+  s!"at={showComma v} sem={showComma sem} col={showComma col} idx={idx} dyn={dyn} wr={wr} off={showComma off}"
 
 def modelAlg (l1 l2 : Layout) (v w : List Int) : String :=
   let n := l1.length
@@ -83,6 +91,24 @@ def modelAlg (l1 l2 : Layout) (v w : List Int) : String :=
   let eq := staticEqual l1 l2 p1 p2
   let cp := toList n (staticCopy l1 l2 p1 p2)
   s!"fill={showComma fill} gen={showComma gen} fe1={showComma fe1} fe2={showComma fe2} fe3={showComma fe3} tr1={showComma tr1} tr2={showComma tr2} min={p1 mn} max={p1 mx} minat={mn} maxat={mx} eq={b01 eq} cp={showComma cp}"
+
+def modelSpare (t dlName sm slName : String) (dl sl : Layout) (raw : Nat) (v : List Int) : String :=
+  match spareSet t with
+  | none => "bad-op"
+  | some (sz, W) =>
+    let n := dl.length
+    let wd := physSizes dl sz; let ws := physSizes sl sz
+    let a : List Nat := (toList n (staticCopy sl dl (fn v) (fun _ => 0))).map Int.toNat
+    let srcField := putFrom 0 0 ws (v.map Int.toNat)
+    -- the same packed_pixel type on both sides: the compiler-generated copy takes the whole bit field
+    let f := if sm = "K" ∧ dlName = slName then srcField else putFrom (raw % 2 ^ W) 0 wd a
+    let same0 := putFrom 0 0 wd a
+    let same1 := putFrom (2 ^ W - 1) 0 wd a
+    let b := (List.range n).map (fun k => if k + 1 = n then Nat.xor (a.getD k 0) 1 else a.getD k 0)
+    let other := putFrom same0 0 wd b
+    let chans := channelsFrom f 0 wd
+    let eqSrc := (List.range n).all (fun s => chans.getD (dl.phys s) 0 == (v.getD (sl.phys s) 0).toNat)
+    s!"A={showComma (chans.map Int.ofNat)} F={f} E={b01 eqSrc} Es={b01 eqSrc} Q0={b01 (packedEqual wd f same0)} R0={b01 (packedEqual wd same0 f)} Q1={b01 (packedEqual wd f same1)} R1={b01 (packedEqual wd same1 f)} T={b01 (packedEqual wd same0 same1)} N0={b01 (!packedEqual wd f same0)} N1={b01 (!packedEqual wd f same1)} D={b01 (packedEqual wd f other)} DN={b01 (!packedEqual wd f other)}"
 
 def model (line : String) : String :=
   match words line with
@@ -101,6 +127,11 @@ def model (line : String) : String :=
     match layoutOf l1, layoutOf l2, ints a, ints b with
     | some l1, some l2, some v, some w =>
       if v.length ≠ l1.length ∨ w.length ≠ l2.length ∨ l1.length ≠ l2.length then "bad-op" else modelAlg l1 l2 v w
+    | _, _, _, _ => "bad-op"
+  | "spare" :: _ :: t :: dl :: sm :: sl :: raw :: rest =>
+    match layoutOf dl, layoutOf sl, raw.toNat?, ints rest with
+    | some dlm, some slm, some raw, some v =>
+      if v.length ≠ slm.length ∨ dlm.length ≠ slm.length then "bad-op" else modelSpare t dl sm sl dlm slm raw v
     | _, _, _, _ => "bad-op"
   | _ => "bad-op"
 
@@ -137,16 +168,21 @@ def judgeAcc (t m : String) (l : Layout) (v : List Int) (ows : List String) : St
   let semObs := if m = "I" then sem.map (· + 1) else sem
   let offExp : List Int :=
     if m = "I" then (List.range n).map (fun (k : Nat) => Int.ofNat (2 * k + 1))
-    else if m = "P" then (List.range n).map (fun (k : Nat) => Int.ofNat k)
+    else if m = "P" ∨ m = "Q" then (List.range n).map (fun (k : Nat) => Int.ofNat k)
     else match chanBytes t, sizeSet t with
       | some cb, _ => (List.range n).map (fun (k : Nat) => Int.ofNat (k * cb))
       | none, some sz => (prefixSums (physSizes l sz)).map (fun (x : Nat) => Int.ofNat x)
       | none, none => []
-  match listField ows "at", listField ows "sem", listField ows "col", field ows "idx", listField ows "off" with
-  | some atv, some sm, some cl, some ix, some off =>
+  let hasDyn := m = "V" ∨ m = "R" ∨ m = "P" ∨ m = "Q"
+  let hasWr := m = "V" ∨ m = "R" ∨ m = "P"
+  match listField ows "at", listField ows "sem", listField ows "col", field ows "idx", listField ows "off", field ows "dyn", field ows "wr" with
+  | some atv, some sm, some cl, some ix, some off, some dy, some wr =>
     firstFail [(atv == v, "at_c-memory-order"), (sm == semObs, "semantic_at_c-mapping"), (cl == sem, "get_color-mapping"),
-               (if m = "K" ∨ m = "B" then ix == "-" else commaInts ix == some v, "operator[]-memory-order"), (off == offExp, "at_c-position")]
-  | _, _, _, _, _ => fail "shape"
+               (if m = "K" ∨ m = "B" then ix == "-" else commaInts ix == some v, "operator[]-memory-order"),
+               (if hasDyn then commaInts dy == some v else dy == "-", "dynamic-index-read"),
+               (if hasWr then commaInts wr == some (v.map (· + 1)) else wr == "-", "dynamic-index-write"),
+               (off == offExp, "at_c-position")]
+  | _, _, _, _, _, _, _ => fail "shape"
 
 def judgeAlg (m1 m2 : Layout) (v w : List Int) (ows : List String) : String :=
   let n := m1.length
@@ -189,6 +225,19 @@ def judge (op obs : String) : String :=
     match specOf l, ints rest with
     | some l, some v => judgeAcc t m l v ows
     | _, _ => fail "bad-op"
+  | "spare" :: _ :: _ :: dl :: _ :: sl :: _ :: rest =>
+    -- Spec: pixels are equal iff all named colours are equal, independent of unused bits of the bit field
+    match specOf dl, specOf sl, ints rest with
+    | some md, some ms, some v =>
+      let n := md.length
+      let flag (k : String) (want : String) : Bool × String := (field ows k == some want, "packed-equality-" ++ k)
+      match listField ows "A" with
+      | some a =>
+        firstFail [(a.length == n && (List.range n).all (fun s => a.getD (md.phys s) 0 == v.getD (ms.phys s) 0), "assign-by-colour"),
+                   flag "E" "1", flag "Es" "1", flag "Q0" "1", flag "R0" "1", flag "Q1" "1", flag "R1" "1", flag "T" "1",
+                   flag "N0" "0", flag "N1" "0", flag "D" "0", flag "DN" "1"]
+      | none => fail "shape"
+    | _, _, _ => fail "bad-op"
   | "alg" :: _ :: _ :: l1 :: l2 :: rest =>
     let (a, b) := splitBar rest
     match specOf l1, specOf l2, ints a, ints b with
